@@ -42,7 +42,7 @@ Thorough == Tier = "thorough"
 Base      == 1700000000
 Spacing   == 600
 Preambles == IF Thorough THEN {0, 5, 12} ELSE {0, 12}
-Depth(p)  == IF Thorough THEN 5 ELSE IF p = 0 THEN 4 ELSE 3
+Depth(p)  == IF Thorough THEN (IF p = 0 THEN 6 ELSE 5) ELSE IF p = 0 THEN 4 ELSE 3
 \* a step: 0 = the earliest time allowed (one second past the tip's median
 \* time past), otherwise a distance from the tip's time
 Steps     == IF Thorough THEN {0, 1, 600, 7000} ELSE {0, 600, 7000}
